@@ -311,6 +311,40 @@ def _law_case(args):
         if not np.array_equal(eb, e0[idx], equal_nan=True):
             bad("depends-on-batch", f"subset {idx}: {eb} vs {e0[idx]}")
             break
+    # extrapolation fills in events outside the table's support only: the
+    # events inside keep their value, whatever else is in the batch
+    dmax = float(lut[:, 1].max())
+    # (supported probes above the extrapolation threshold of 0.05: mid-points
+    # of pairs of table rows, hence inside the hull)
+    hi = lut[lut[:, 1] > 0.055]
+    hi = hi[np.argsort(hi[:, 1], kind="stable")]
+    sel = hi[np.linspace(0, len(hi) - 1, 6).astype(int)]
+    mid = (sel[:-1] + sel[1:]) / 2
+    nin = n + len(mid)
+    xo = np.concatenate([cx, mid[:, 0], [np.median(lut[:, 0])] * 2,
+                         [lut[:, 0].min()]])
+    do = np.concatenate([cd, mid[:, 1], [dmax * 1.08, dmax * 1.2], [0.001]])
+    import warnings
+    with warnings.catch_warnings():
+        warnings.simplefilter("ignore")
+        plain = E(x=xo, d=do)
+        inside = np.isfinite(plain)
+        for bits in range(1, 2 ** 3):
+            idx = list(range(nin)) + [nin + i for i in range(3)
+                                      if bits >> i & 1]
+            for order in (idx, idx[::-1]):
+                ex = E(x=xo[order], d=do[order], extrapolate=True)
+                cnt += 1
+                ins = inside[order]
+                if not np.array_equal(ex[ins], plain[order][ins]):
+                    bad("extrapolation-changes-supported-events",
+                        f"events {order}: extrapolate=True gives "
+                        f"{ex[ins]} for events inside the table "
+                        f"(extrapolate=False: {plain[order][ins]})")
+                    break
+    if not inside[n:nin].any() or inside[nin:nin + 2].any():
+        bad("probe-outside-lut", f"{lut_id}: extrapolation probes are not "
+            f"in/out as intended: {inside.tolist()}")
     # call order: every ordered pair / triple of distinct configurations
     pool = [dict(), dict(medium=20.0), dict(channel_width=30.0),
             dict(flow_rate=0.16), dict(px_um=0.0),
@@ -459,7 +493,7 @@ def run(ctx):
                 "general position",
                 "viscosity of known media is taken from dclab's "
                 "get_viscosity (covered by the test-suite)",
-                "extrapolate=True is outside"]}
+                "extrapolate=True: only that supported events keep their value"]}
 
 
 def replay(case, ctx):
